@@ -90,6 +90,27 @@ class CompleteTaskHandler(StabilizeHandler[CompleteTask]):
                         )
                 return
 
+            # A REDIRECT completion is pushed together with a JumpToStage. If the
+            # jump was handled first it has already re-armed this stage and the
+            # task RUNNING now belongs to the next iteration: marking it REDIRECT
+            # would make its RunTask be ignored and hang the workflow.
+            if message.status == WorkflowStatus.REDIRECT and "_pending_redirect_task" in stage.context:
+                if stage.context["_pending_redirect_task"] != task.id:
+                    logger.debug(
+                        "Ignoring stale CompleteTask(REDIRECT) for %s (%s) - jump already applied",
+                        task.name,
+                        task.id,
+                    )
+                    if message.message_id:
+                        with self.repository.transaction(self.queue) as txn:
+                            txn.mark_message_processed(
+                                message_id=message.message_id,
+                                handler_type="CompleteTask",
+                                execution_id=message.execution_id,
+                            )
+                    return
+                stage.context["_pending_redirect_task"] = None
+
             # Update task status
             self.set_task_status(task, message.status)
             task.end_time = self.current_time_millis()
